@@ -164,11 +164,20 @@ pub enum Decision {
     Container { kind: char, k0: u64, k1: u64, tweak: Tweak },
     /// benign stream behaviour of one opened file: 0 = whole reads, no EINTR
     Open { path: String, io_seed: u64 },
-    /// a `thread::spawn`: run the body at spawn (eager) or defer it to the first join
-    Spawn { eager: bool },
-    /// order in which deferred thread bodies run at a join
-    TaskOrder { order: Vec<u32> },
+    /// thread scheduling (runs under the shuttle engine): at scheduling step `at`, run task `task`
+    /// instead of the default choice (default = keep running the current task while it is runnable
+    /// and not yielding, otherwise the runnable task with the lowest id). `task == NO_DEVIATION`
+    /// stands for "no deviation at this step" (what the minimiser replaces a deviation with).
+    Sched { at: u64, task: u32 },
+    /// answer of `thread::available_parallelism()`
+    Cores { n: u32 },
+    /// a wait with a deadline (`recv_timeout`) found nothing to receive: does the deadline pass
+    /// before any other thread makes progress (a stalled machine), or does the wait block?
+    Timeout { fired: bool },
 }
+
+pub const NO_DEVIATION: u32 = u32::MAX;
+pub const DEFAULT_CORES: u32 = 8;
 
 impl Decision {
     pub fn is_default(&self) -> bool {
@@ -176,8 +185,9 @@ impl Decision {
             Decision::ReadDir { order, .. } => order.iter().enumerate().all(|(i, &x)| i as u32 == x),
             Decision::Container { k0, k1, tweak, .. } => *k0 == 0 && *k1 == 0 && *tweak == Tweak::None,
             Decision::Open { io_seed, .. } => *io_seed == 0,
-            Decision::Spawn { eager } => *eager,
-            Decision::TaskOrder { order } => order.iter().enumerate().all(|(i, &x)| i as u32 == x),
+            Decision::Sched { task, .. } => *task == NO_DEVIATION,
+            Decision::Cores { n } => *n == DEFAULT_CORES,
+            Decision::Timeout { fired } => !*fired,
         }
     }
     pub fn defaulted(&self) -> Decision {
@@ -196,12 +206,33 @@ impl Decision {
                 path: path.clone(),
                 io_seed: 0,
             },
-            Decision::Spawn { .. } => Decision::Spawn { eager: true },
-            Decision::TaskOrder { order } => Decision::TaskOrder {
-                order: (0..order.len() as u32).collect(),
+            Decision::Sched { at, .. } => Decision::Sched {
+                at: *at,
+                task: NO_DEVIATION,
             },
+            Decision::Cores { .. } => Decision::Cores { n: DEFAULT_CORES },
+            Decision::Timeout { .. } => Decision::Timeout { fired: false },
         }
     }
+    /// scheduling deviations live in their own stream (keyed by step), `Open` decisions are keyed
+    /// by path; everything else is consumed in program order
+    pub fn is_sequenced(&self) -> bool {
+        !matches!(self, Decision::Sched { .. } | Decision::Open { .. })
+    }
+}
+
+/// How the thread scheduler picks the next task in a seeded run.
+#[derive(Clone, Copy, Debug, PartialEq, Eq)]
+pub enum SchedMode {
+    /// the default choice at every step (no preemption)
+    Default,
+    /// uniform among the runnable tasks at every step
+    Uniform,
+    /// keep the current task; switch to a uniformly chosen other task with probability permille/1000
+    Sticky(u32),
+    /// PCT-style: random task priorities, the running task is demoted at `depth` random steps of
+    /// the first `horizon` steps
+    Pct { depth: u32, horizon: u32 },
 }
 
 #[derive(Clone, Copy, Debug, PartialEq, Eq)]
@@ -237,6 +268,12 @@ pub struct Profile {
     pub io: bool,
     /// deterministic batch: every container iterates in this member of the covering family
     pub cover_iter: Option<(u32, bool)>,
+    /// thread scheduling policy (only consulted when the generator runs threads)
+    pub sched: SchedMode,
+    /// deadlines of timed waits may pass (stalled-machine fault)
+    pub stall: bool,
+    /// short writes / EINTR on output streams
+    pub out_io: bool,
 }
 
 impl Profile {
@@ -246,6 +283,9 @@ impl Profile {
         tweaks: false,
         io: false,
         cover_iter: None,
+        sched: SchedMode::Default,
+        stall: false,
+        out_io: false,
     };
 
     /// Swarm-style: every run draws its own mix.
@@ -277,7 +317,27 @@ impl Profile {
             tweaks,
             io,
             cover_iter: None,
+            sched: SchedMode::Default,
+            stall: false,
+            out_io: false,
         }
+    }
+
+    /// The part of the profile that was added after the first release of the simulator is drawn
+    /// from the run's auxiliary stream, so that the directory / hash decisions of a given
+    /// (seed, run) stay what they were.
+    pub fn draw_aux(&mut self, aux: &mut Rng) {
+        self.sched = match aux.below(16) {
+            0..=1 => SchedMode::Default,
+            2..=6 => SchedMode::Uniform,
+            7..=10 => SchedMode::Sticky([20, 100, 300][aux.below(3) as usize]),
+            _ => SchedMode::Pct {
+                depth: 1 + aux.below(4) as u32,
+                horizon: [64, 512, 4096, 20000][aux.below(4) as usize],
+            },
+        };
+        self.stall = aux.chance(1, 3);
+        self.out_io = aux.chance(1, 2);
     }
 
     /// member `j` of the deterministic adjacency-covering batch
@@ -291,6 +351,9 @@ impl Profile {
             tweaks: false,
             io: false,
             cover_iter: Some((j / 2, j % 2 == 1)),
+            sched: SchedMode::Default,
+            stall: false,
+            out_io: false,
         }
     }
 
@@ -315,11 +378,14 @@ impl Profile {
             HashMode::Zero => "hash=zero",
         };
         format!(
-            "{} {} tweaks={} io={}",
+            "{} {} tweaks={} io={} out_io={} sched={:?} stall={}",
             d,
             h,
             if self.tweaks { "on" } else { "off" },
-            if self.io { "on" } else { "off" }
+            if self.io { "on" } else { "off" },
+            if self.out_io { "on" } else { "off" },
+            self.sched,
+            if self.stall { "on" } else { "off" }
         )
     }
 
@@ -385,9 +451,52 @@ pub struct HardPlan {
     pub salt: u64,
 }
 
+#[derive(Clone)]
 pub enum Mode {
-    Random { rng: Rng, profile: Profile },
-    Replay { q: VecDeque<Decision> },
+    /// `rng` feeds the directory / container / open / task-order decisions, `aux` everything that
+    /// was added later (scheduling, cores, timeouts, output-stream plans)
+    Random { rng: Rng, aux: Rng, profile: Profile },
+    Replay(ReplayPlan),
+}
+
+/// An explicit schedule, ready to be consumed by a run.
+#[derive(Default, Clone)]
+pub struct ReplayPlan {
+    /// decisions consumed in program order
+    pub q: VecDeque<Decision>,
+    /// stream plans by path (consumed in order per path)
+    pub opens: BTreeMap<String, VecDeque<u64>>,
+    /// scheduling deviations by step
+    pub sched: BTreeMap<u64, u32>,
+}
+
+impl ReplayPlan {
+    pub fn new(schedule: &[Decision]) -> ReplayPlan {
+        let mut p = ReplayPlan::default();
+        for d in schedule {
+            match d {
+                Decision::Sched { at, task } => {
+                    if *task != NO_DEVIATION {
+                        p.sched.insert(*at, *task);
+                    }
+                }
+                Decision::Open { path, io_seed } => p.opens.entry(path.clone()).or_default().push_back(*io_seed),
+                other => p.q.push_back(other.clone()),
+            }
+        }
+        p
+    }
+    pub fn leftover(&self) -> usize {
+        self.q.len()
+    }
+}
+
+/// PCT scheduler state of one run
+#[derive(Default)]
+pub struct PctState {
+    pub prio: BTreeMap<u32, u64>,
+    pub change_at: Vec<u64>,
+    pub next_low: u64,
 }
 
 // ---------------------------------------------------------------------------------------------
@@ -411,6 +520,21 @@ pub struct RunStats {
     pub prints: u64,
     pub thread_spawns: u64,
     pub thread_spawns_deferred: u64,
+    pub sched_steps: u64,
+    pub sched_choice_points: u64,
+    pub context_switches: u64,
+    pub sched_deviations: u64,
+    pub max_tasks: u64,
+    pub timeouts_offered: u64,
+    pub timeouts_fired: u64,
+    pub timeouts_natural: u64,
+    pub cores_asked: u64,
+    pub short_writes: u64,
+    pub write_eintr: u64,
+    pub stderr_prints: u64,
+    pub prints_after_exit: u64,
+    pub clock_reads: u64,
+    pub shuttle_runs: u64,
 }
 
 impl RunStats {
@@ -430,6 +554,21 @@ impl RunStats {
         self.prints += o.prints;
         self.thread_spawns += o.thread_spawns;
         self.thread_spawns_deferred += o.thread_spawns_deferred;
+        self.sched_steps += o.sched_steps;
+        self.sched_choice_points += o.sched_choice_points;
+        self.context_switches += o.context_switches;
+        self.sched_deviations += o.sched_deviations;
+        self.max_tasks = self.max_tasks.max(o.max_tasks);
+        self.timeouts_offered += o.timeouts_offered;
+        self.timeouts_fired += o.timeouts_fired;
+        self.timeouts_natural += o.timeouts_natural;
+        self.cores_asked += o.cores_asked;
+        self.short_writes += o.short_writes;
+        self.write_eintr += o.write_eintr;
+        self.stderr_prints += o.stderr_prints;
+        self.prints_after_exit += o.prints_after_exit;
+        self.clock_reads += o.clock_reads;
+        self.shuttle_runs += o.shuttle_runs;
     }
 }
 
@@ -465,6 +604,22 @@ pub struct World {
     pub reads_seen: u64,
     /// optional human-readable event log (determinism proof / replay dumps)
     pub verbose_log: Option<Vec<String>>,
+    /// the process image is gone (`process::exit` was called or `main` returned): whatever other
+    /// threads or destructors still write is lost, as it would be in reality
+    pub frozen: bool,
+    /// digest of the sequence of scheduled task ids (the interleaving)
+    pub sched_digest: Fnv,
+    pub pct: Option<PctState>,
+    /// simulated wall clock (nanoseconds since the epoch), advanced at every read
+    pub clock_ns: u64,
+    /// a deadline passed in this run (stalled-machine fault): a fail-stop afterwards is not judged
+    pub stalled: bool,
+    /// short-write / EINTR plan of the stdout handle, decided at its first `write`
+    pub stdout_plan: Option<Option<Rng>>,
+    pub stdout_eintr: u32,
+    pub exit_code: Option<i32>,
+    /// set by the scheduler when the current task yields: can any other task run?
+    pub yield_probe: Option<bool>,
 }
 
 thread_local! {
@@ -518,6 +673,15 @@ impl World {
             hard_fired: false,
             reads_seen: 0,
             verbose_log: if verbose { Some(vec![]) } else { None },
+            frozen: false,
+            sched_digest: Fnv::default(),
+            pct: None,
+            clock_ns: 1_700_000_000_000_000_000,
+            stalled: false,
+            stdout_plan: None,
+            stdout_eintr: 0,
+            exit_code: None,
+            yield_probe: None,
         }
     }
 
@@ -535,8 +699,8 @@ impl World {
 
     pub fn decide_read_dir(&mut self, path: &str, n: usize) -> Vec<u32> {
         let order: Vec<u32> = match &mut self.mode {
-            Mode::Random { rng, profile } => gen_dir_order(rng, profile.dir, n),
-            Mode::Replay { q } => match q.front() {
+            Mode::Random { rng, profile, .. } => gen_dir_order(rng, profile.dir, n),
+            Mode::Replay(ReplayPlan { q, .. }) => match q.front() {
                 Some(Decision::ReadDir { path: p, order }) if p == path && order.len() == n => {
                     let o = order.clone();
                     q.pop_front();
@@ -568,7 +732,7 @@ impl World {
 
     pub fn decide_container(&mut self, kind: char) -> (u32, u64, u64, Tweak) {
         let (k0, k1, tweak) = match &mut self.mode {
-            Mode::Random { rng, profile } => {
+            Mode::Random { rng, profile, .. } => {
                 let (k0, k1) = match profile.hash {
                     HashMode::Fresh => (rng.next_u64(), rng.next_u64()),
                     HashMode::Shared(a, b) => (a, b),
@@ -587,7 +751,7 @@ impl World {
                 };
                 (k0, k1, tweak)
             }
-            Mode::Replay { q } => match q.front() {
+            Mode::Replay(ReplayPlan { q, .. }) => match q.front() {
                 Some(Decision::Container { kind: k, k0, k1, tweak }) if *k == kind => {
                     let r = (*k0, *k1, *tweak);
                     q.pop_front();
@@ -619,79 +783,32 @@ impl World {
         (id, k0, k1, tweak)
     }
 
-    pub fn decide_spawn(&mut self) -> bool {
-        let eager = match &mut self.mode {
-            Mode::Random { rng, profile } => profile.cover_iter.is_some() || rng.chance(1, 2),
-            Mode::Replay { q } => match q.front() {
-                Some(Decision::Spawn { eager }) => {
-                    let e = *eager;
-                    q.pop_front();
-                    e
-                }
-                _ => {
-                    self.diverged = true;
-                    true
-                }
-            },
-        };
-        self.stats.thread_spawns += 1;
-        if !eager {
-            self.stats.thread_spawns_deferred += 1;
-        }
-        self.event("spawn", eager as u64, 0);
-        self.trace.push(Decision::Spawn { eager });
-        eager
-    }
-
-    pub fn note_scoped_spawn(&mut self) {
-        self.stats.thread_spawns += 1;
-        self.event("scoped_spawn", 0, 0);
-    }
-
-    pub fn decide_task_order(&mut self, n: usize) -> Vec<u32> {
-        let order: Vec<u32> = match &mut self.mode {
-            Mode::Random { rng, .. } => {
-                let mut v: Vec<u32> = (0..n as u32).collect();
-                rng.shuffle(&mut v);
-                v
-            }
-            Mode::Replay { q } => match q.front() {
-                Some(Decision::TaskOrder { order }) if order.len() == n => {
-                    let o = order.clone();
-                    q.pop_front();
-                    o
-                }
-                _ => {
-                    self.diverged = true;
-                    (0..n as u32).collect()
-                }
-            },
-        };
-        let mut d = Fnv::default();
-        for &x in &order {
-            d.u64(x as u64);
-        }
-        self.event("task_order", n as u64, d.0);
-        self.trace.push(Decision::TaskOrder { order: order.clone() });
-        order
-    }
-
     pub fn decide_open(&mut self, path: &str) -> u64 {
+        self.decide_stream(path, false)
+    }
+
+    /// Stream plan of one opened file / output handle. `output` streams follow the profile's
+    /// `out_io` switch and draw from the auxiliary stream.
+    pub fn decide_stream(&mut self, path: &str, output: bool) -> u64 {
         let io_seed = match &mut self.mode {
-            Mode::Random { rng, profile } => {
-                if profile.io {
+            Mode::Random { rng, aux, profile } => {
+                if output {
+                    if profile.out_io {
+                        aux.next_u64() | 1
+                    } else {
+                        0
+                    }
+                } else if profile.io {
                     rng.next_u64() | 1
                 } else {
                     0
                 }
             }
-            Mode::Replay { q } => match q.front() {
-                Some(Decision::Open { path: p, io_seed }) if p == path => {
-                    let s = *io_seed;
-                    q.pop_front();
-                    s
-                }
-                _ => {
+            // keyed by path, so that a replay with a different directory order (the minimiser
+            // reorders listings) still gives each file the stream behaviour it had
+            Mode::Replay(plan) => match plan.opens.get_mut(path).and_then(|q| q.pop_front()) {
+                Some(s) => s,
+                None => {
                     self.diverged = true;
                     0
                 }
@@ -706,6 +823,165 @@ impl World {
             io_seed,
         });
         io_seed
+    }
+
+    pub fn decide_cores(&mut self) -> u32 {
+        let n = match &mut self.mode {
+            Mode::Random { aux, profile, .. } => {
+                if profile.cover_iter.is_some() {
+                    DEFAULT_CORES
+                } else {
+                    // small counts dominate real machines; a few odd and large ones for chunking arithmetic
+                    const C: [u32; 16] = [1, 1, 2, 2, 3, 4, 4, 5, 6, 7, 8, 8, 12, 16, 61, 128];
+                    C[aux.below(C.len() as u64) as usize]
+                }
+            }
+            Mode::Replay(ReplayPlan { q, .. }) => match q.front() {
+                Some(Decision::Cores { n }) => {
+                    let n = *n;
+                    q.pop_front();
+                    n
+                }
+                _ => {
+                    self.diverged = true;
+                    DEFAULT_CORES
+                }
+            },
+        };
+        self.stats.cores_asked += 1;
+        self.event("cores", n as u64, 0);
+        self.trace.push(Decision::Cores { n });
+        n
+    }
+
+    /// A timed wait found nothing to receive. Does its deadline pass first?
+    pub fn decide_timeout(&mut self) -> bool {
+        let fired = match &mut self.mode {
+            Mode::Random { aux, profile, .. } => profile.stall && aux.chance(1, 4),
+            Mode::Replay(ReplayPlan { q, .. }) => match q.front() {
+                Some(Decision::Timeout { fired }) => {
+                    let f = *fired;
+                    q.pop_front();
+                    f
+                }
+                _ => {
+                    self.diverged = true;
+                    false
+                }
+            },
+        };
+        self.stats.timeouts_offered += 1;
+        if fired {
+            self.stats.timeouts_fired += 1;
+            self.stalled = true;
+        }
+        self.event("timeout", fired as u64, 0);
+        self.trace.push(Decision::Timeout { fired });
+        fired
+    }
+
+    /// Simulated wall clock: strictly increasing, advanced by a seeded amount per read.
+    pub fn read_clock(&mut self) -> u64 {
+        let step = match &mut self.mode {
+            Mode::Random { aux, .. } => 1_000 + aux.below(5_000_000),
+            Mode::Replay(_) => 1_000_000,
+        };
+        self.clock_ns += step;
+        self.stats.clock_reads += 1;
+        self.clock_ns
+    }
+
+    /// Which task runs next? `runnable` is non-empty and sorted by task id.
+    pub fn decide_sched(&mut self, runnable: &[u32], current: Option<u32>, yielding: bool) -> u32 {
+        let step = self.stats.sched_steps;
+        self.stats.sched_steps += 1;
+        self.stats.max_tasks = self.stats.max_tasks.max(runnable.iter().copied().max().unwrap_or(0) as u64 + 1);
+        let cur_runnable = current.map(|c| runnable.contains(&c)).unwrap_or(false);
+        if yielding {
+            self.yield_probe = Some(runnable.iter().any(|t| Some(*t) != current));
+        }
+        // a yielding task is polling: it is not offered again while somebody else can run
+        let without_yielder: Vec<u32>;
+        let runnable: &[u32] = if yielding && runnable.iter().any(|t| Some(*t) != current) {
+            without_yielder = runnable.iter().copied().filter(|t| Some(*t) != current).collect();
+            &without_yielder
+        } else {
+            runnable
+        };
+        let cur_runnable = cur_runnable && runnable.contains(&current.unwrap());
+        let default = if cur_runnable && !yielding {
+            current.unwrap()
+        } else {
+            // lowest id, preferring another task than a yielding one
+            *runnable
+                .iter()
+                .find(|t| Some(**t) != current)
+                .unwrap_or(&runnable[0])
+        };
+        let pick = if runnable.len() == 1 {
+            runnable[0]
+        } else {
+            self.stats.sched_choice_points += 1;
+            match &mut self.mode {
+                Mode::Random { aux, profile, .. } => match profile.sched {
+                    SchedMode::Default => default,
+                    SchedMode::Uniform => runnable[aux.below(runnable.len() as u64) as usize],
+                    SchedMode::Sticky(permille) => {
+                        if cur_runnable && !yielding && !aux.chance(permille as u64, 1000) {
+                            default
+                        } else {
+                            runnable[aux.below(runnable.len() as u64) as usize]
+                        }
+                    }
+                    SchedMode::Pct { depth, horizon } => {
+                        let st = self.pct.get_or_insert_with(|| {
+                            let mut change_at: Vec<u64> = (0..depth).map(|_| aux.below(horizon as u64)).collect();
+                            change_at.sort();
+                            PctState {
+                                prio: BTreeMap::new(),
+                                change_at,
+                                next_low: 0,
+                            }
+                        });
+                        for t in runnable {
+                            if !st.prio.contains_key(t) {
+                                // fresh tasks get a random high priority
+                                let p = (1 << 32) + aux.below(1 << 31);
+                                st.prio.insert(*t, p);
+                            }
+                        }
+                        if st.change_at.contains(&step) || yielding {
+                            if let Some(c) = current {
+                                st.next_low += 1;
+                                let low = (1u64 << 20) - st.next_low;
+                                st.prio.insert(c, low);
+                            }
+                        }
+                        *runnable.iter().max_by_key(|t| (st.prio[*t], u32::MAX - **t)).unwrap()
+                    }
+                },
+                Mode::Replay(plan) => match plan.sched.get(&step) {
+                    Some(t) if runnable.contains(t) => *t,
+                    Some(_) => {
+                        self.diverged = true;
+                        default
+                    }
+                    None => default,
+                },
+            }
+        };
+        if pick != default {
+            self.stats.sched_deviations += 1;
+            self.trace.push(Decision::Sched { at: step, task: pick });
+        }
+        if current.is_some() && Some(pick) != current {
+            self.stats.context_switches += 1;
+        }
+        self.sched_digest.u64(pick as u64);
+        if runnable.len() > 1 {
+            self.event("sched", step, pick as u64);
+        }
+        pick
     }
 }
 
